@@ -353,6 +353,10 @@ func walkKinds(t schema.Type, path []string, f func(i int, kind string)) {
 					return
 				}
 			case "union":
+				if path[i] == "*" {
+					f(i, "member") // the wildcard would match whichever member is set
+					return
+				}
 				found := false
 				for _, m := range n.Members {
 					if m.Alias == path[i] {
